@@ -358,7 +358,7 @@ MANIFEST_TEXT = {
     'C18': dict(
         text='Proof, piece by piece: (1) the real Int.pack_regexp / Data.pack_regexp bodies append exactly one piece per field - for a fixed value the escaped bytes their pack() emits '
              '(the pack bodies are re-verified for a regexp buffer), for Any() ".{n}" (n the declared width, the constant size or the value of the size field), ".*" when the size is not known, '
-             '".*" + the escaped delimiter for delimited byte strings - and never fail for a placeholder; (2) FragmentsOfRegexps.insert/append keep one regexp text per stored chunk, '
+             '".*" + the escaped delimiter for delimited byte strings - and never fail for a placeholder; (2) FragmentsOfRegexps.__init__ builds an empty well-formed buffer (proved for the argument-less construction the library uses), insert/append keep one regexp text per stored chunk, '
              'assemble_regexp is the left fold of the pieces in position order (loop invariant), as_regular_expression compiles "(?s)" + that fold over a buffer every table entry contributed to in order; '
              '(3) lemmas: the region of the input a field consumes when it decodes to the pattern value (contracts C05/C06) is in the language of its piece.',
         note='The denotation of the piece shapes is assumed (cross-checked against re, bounded). Bits.pack_regexp and the composition over all fields are bounded stand-ins: exhaustive per-byte evaluation '
